@@ -16,6 +16,8 @@
             'path_compare_node and path_iterate (clauses C19_CMP_POST / C19_IT_POST); this unit uses their consequences C19_*_POST_LIGHT as contracts. '
             'The function text is cut out of pathops.h mechanically on every run (extract).',
  'kf': ['C19_path_single_dot_overread', 'C19_path_remove_prefix_null'],
+ # the over-read happens inside the helpers, which are contracts here: the helper units probe it, this unit only inherits the carve-out
+ 'kf_probe_case': {'C19_path_single_dot_overread': {'PROBED_BY_HELPER_UNITS': 1}},
  'inject': [
    {'file': 'overlay:cxx/path_remove_prefix.c', 'func': 'path_remove_prefix', 'at': 'func-begin', 'ghost': 'g_P = path; g_Q = prefix;'},
    {'file': 'overlay:cxx/path_remove_prefix.c', 'func': 'path_remove_prefix', 'at': 'body-begin', 'loop': 0, 'ghost': 'g_cnt++;'},
@@ -27,11 +29,12 @@
     'invariants': [
       'path != NULL && prefix != NULL && __CPROVER_same_object(path, g_P) && __CPROVER_same_object(prefix, g_Q)',
       'C19_POFF(g_P) == 0 && C19_POFF(g_Q) == 0 && C19_POFF(path) <= g_LP && C19_POFF(prefix) <= g_LQ',
-      'g_differ == 0 && g_done == g_cnt',
+      'g_differ == 0 && g_done == g_cnt && g_cnt <= C19_POFF(path)',
       'g_cnt == 0 ? (path == g_P && prefix == g_Q) : (path[0] != 47 && prefix[0] != 47)',
     ],
     'decreases': '(g_LP - C19_POFF(path)) + (g_LQ - C19_POFF(prefix))'},
  ],
+ 'solver': 'cadical',
  'witness': {'unwind': 9},
 } @*/
 #include "c19_path_contracts.h"
